@@ -361,10 +361,22 @@ bool vfps::ProgramOptions::parse(int ac, char** av)
                                      + _configfile + "\".";
                 Display::printText(message);
                 store(parse_config_file(ifs, _cfgfileopts), _vm);
-                notify(_vm);
-                if(_vm.count("SyncFreq")) {
-                    _vm.at("SynchrotronFrequency").value()
-                            = _vm["SyncFreq"].value();
+                /* Compatibility names act like the current names,
+                 * explicitly given current names (command line) win.
+                 */
+                const char* aliases[3][2] = {
+                    {"SyncFreq","SynchrotronFrequency"},
+                    {"RFVoltage","AcceleratingVoltage"},
+                    {"steps","StepsPerTs"}
+                };
+                for (const auto& alias : aliases) {
+                    if(_vm.count(alias[0])) {
+                        if (_vm[alias[1]].defaulted()) {
+                            _vm.at(alias[1]).value() = _vm[alias[0]].value();
+                        } else {
+                            _vm.at(alias[0]).value() = _vm[alias[1]].value();
+                        }
+                    }
                 }
                 notify(_vm);
             }
